@@ -12,7 +12,7 @@ import (
 	"github.com/bool64/cache"
 )
 
-const c01StressRule = "free-running stress twin (real goroutines, Go scheduler, -race binary): generated configuration, 1-3 keys initially absent/stale, 8-48 goroutines x 2-6 Gets with generated Gosched hints, caller TTLs and failing builders, key buffers overwritten after return; " +
+const c01StressRule = "free-running stress twin (real goroutines, Go scheduler, -race binary): generated configuration, 1-3 keys initially absent/stale, 8-48 goroutines x 2-6 Gets with generated Gosched hints, caller TTLs and failing builders, key buffers overwritten after return, followed by 10-60 cold-key stampedes (all goroutines released from a spin barrier onto a fresh key); " +
 	"oracle: atomic per-key in-flight counter in the builder never exceeds 1, every (v,nil) result is a token of the Get's own key, the race detector stays silent, and once all Gets returned and no build is running no key lock remains; " +
 	"non-trivial = >=2 builds happened for some key"
 
@@ -39,12 +39,17 @@ func TestC01Stress(t *testing.T) {
 		spin := c.Int("builder-spin", 0, 3)
 		c.Tracef("config: %s; %d keys, %d goroutines x %d Gets, fail-every=%d", cfg, nkeys, ng, per, failEvery)
 
-		kind := []string{kindSharded, kindSync, kindShardedOf}[cfg.variant]
+		kind := variantKinds[cfg.variant]
 		be := newCaseBackend(c, kind, cache.Config{TimeToLive: cfg.backendTTL, ExpirationJitter: -1, DeleteExpiredJobInterval: farFuture})
 
 		var fe frontend
 
-		if cfg.variant == 2 {
+		if cfg.variant >= 3 {
+			fe = foOfAny{cache.NewFailoverOf[any](cache.FailoverConfigOf[any]{
+				Backend: be.Raw().(cache.ReadWriter), FailedUpdateTTL: cfg.failedUpdateTTL, UpdateTTL: cfg.updateTTL,
+				SyncUpdate: cfg.syncUpdate, SyncRead: cfg.syncRead, MaxStaleness: cfg.maxStaleness, FailHard: cfg.failHard,
+			}.Use)}
+		} else if cfg.variant == 2 {
 			fe = foOf{cache.NewFailoverOf[string](cache.FailoverConfigOf[string]{
 				Backend: be.Raw().(*cache.ShardedMapOf[string]), FailedUpdateTTL: cfg.failedUpdateTTL, UpdateTTL: cfg.updateTTL,
 				SyncUpdate: cfg.syncUpdate, SyncRead: cfg.syncRead, MaxStaleness: cfg.maxStaleness, FailHard: cfg.failHard,
@@ -144,6 +149,52 @@ func TestC01Stress(t *testing.T) {
 		wg.Wait()
 
 		c.Assert(atomic.LoadInt32(&overlap) == 0, "overlap", "two builds of one key were in flight at the same time")
+
+		// Cold-key stampedes: all goroutines are released from a spin barrier onto a fresh key, so that
+		// several of them race through the key-lock acquisition itself (no call-out inside that window).
+		rounds := c.Int("stampede-rounds", 10, 60)
+		sg := ng
+		if sg > 8 {
+			sg = 8
+		}
+
+		for r := 0; r < rounds; r++ {
+			key := []byte(fmt.Sprintf("stampede-%d", r))
+
+			var (
+				in, ready int32
+				swg       sync.WaitGroup
+			)
+
+			for g := 0; g < sg; g++ {
+				swg.Add(1)
+
+				go func() {
+					defer swg.Done()
+
+					atomic.AddInt32(&ready, 1)
+
+					// bounded spin: a tight rendezvous when cores are free, no livelock when they are not
+					for spins := 0; atomic.LoadInt32(&ready) < int32(sg) && spins < 20000; spins++ {
+					}
+
+					_, _ = fe.Get(context.Background(), append([]byte{}, key...), func(context.Context) (string, error) {
+						if atomic.AddInt32(&in, 1) > 1 {
+							atomic.StoreInt32(&overlap, 1)
+						}
+
+						runtime.Gosched()
+						atomic.AddInt32(&in, -1)
+
+						return tokenFor(key, "st", r), nil
+					})
+				}()
+			}
+
+			swg.Wait()
+		}
+
+		c.Assert(atomic.LoadInt32(&overlap) == 0, "overlap", "cold-key stampede: two builds of one key were in flight at the same time")
 		c.Assert(len(bad) == 0, "zero-value-nil-error", "results without provenance: %v", bad)
 
 		// background builds may still run; a lock is leaked only if it outlives every build
